@@ -95,7 +95,12 @@ theorem Writes.hasKey_strip {n : String} (hn : n ∉ N) (c : Candle F) : hasKey 
 theorem Writes.scanBack_strip {n : String} (hn : n ∉ N) (cs : List (Candle F)) (j : Nat) :
     scanBack n (cs.map (strip N)) j = scanBack n cs j := by
   induction j with
-  | zero => rfl
+  | zero =>
+    unfold scanBack
+    rw [List.getElem?_map]
+    cases cs[0]? with
+    | none => rfl
+    | some c => simp only [Option.map_some, Writes.hasKey_strip hn]
   | succ j ih =>
     unfold scanBack
     rw [List.getElem?_map]
